@@ -11,9 +11,8 @@ Import ListNotations.
 Open Scope Z_scope.
 
 (* REFINEMENT, every script tree of any depth, every context, world and counter: unless the
-   specified run meets one of the four marked situations (value-bearing CALL in a static
-   frame, CALLCODE with value > balance, RETURNDATACOPY size 0 beyond the data, call of an
-   account-less address at the depth limit), the model reports at least one path and EVERY
+   specified run meets the one marked situation (call of an account-less address at the
+   depth limit: `clean`), the model reports at least one path and EVERY
    reported path has the specified outcome: same result kind and return data, same world
    (code, storage, transient storage, balances) after a successful frame, same CREATE
    counter, and the same ghost log, i.e. every frame anywhere in the tree -- also inside
@@ -128,29 +127,41 @@ Theorem C09_evm_create_atomic :
 Proof. exact evm_do_create_atomic. Qed.
 Print Assumptions C09_evm_create_atomic.
 
+(* ---- the three situations repaired in sevm.py, at full strength (they are also covered by
+   C09_refines: `clean` no longer excludes them) ---- *)
+
+(* fea28af: a value-bearing CALL inside a static frame halts the frame -- in the specification
+   and in the model, whatever the target, the callee and the rest of the frame; nothing else
+   is reported and nothing moves *)
+Theorem C09_static_value_call_halts :
+  forall to v rsz callee rest c w ctr ob l,
+    c_static c = true -> v <> 0 ->
+    sexec (SCall KCall to v rsz callee rest) c w ctr ob (returndata l) = (SHalt, ctr, [LEnd FHalt]) /\
+    mexec (SCall KCall to v rsz callee rest) c (mstate_of w ctr) ob l = [(FHalt, mstate_of w ctr, [LEnd FHalt])].
+Proof. exact static_value_call_halts. Qed.
+Print Assumptions C09_static_value_call_halts.
+
+(* 91e78e2: CALLCODE with value > balance: the callee never runs and no succeeding path is
+   reported -- the paths are exactly those of the rest of the frame continued with status
+   word 0, empty return data and the untouched state *)
+Theorem C09_callcode_insufficient_fails :
+  forall to v rsz callee rest c st ob l,
+    0 <= balance_of st (c_this c) < v ->
+    mexec (SCall KCallcode to v rsz callee rest) c st ob l =
+    mexec rest c st (m_after_call ob 0 (Some (false, true, [])) rsz []) (Some (false, true, [])).
+Proof. exact callcode_insufficient_fails. Qed.
+Print Assumptions C09_callcode_insufficient_fails.
+
+(* 4f2dd83: RETURNDATACOPY beyond the return data halts the frame, for every size (0 included) *)
+Theorem C09_retcopy_oob_halts :
+  forall off size rest c w ctr ob l,
+    blen (returndata l) < off + size ->
+    sexec (SRetCopy off size rest) c w ctr ob (returndata l) = (SHalt, ctr, [LEnd FHalt]) /\
+    mexec (SRetCopy off size rest) c (mstate_of w ctr) ob l = [(FHalt, mstate_of w ctr, [LEnd FHalt])].
+Proof. exact retcopy_oob_halts. Qed.
+Print Assumptions C09_retcopy_oob_halts.
+
 (* ---- the full statement (without the `clean` proviso) is FALSE of the faithful model ---- *)
-
-(* F11: inside a static frame a value-bearing CALL is executed and moves balances *)
-Theorem C09_static_value_call_refuted :
-  exists s c w ctr, supported s = true /\ c_static c = true /\ c_depth c <= MAX_DEPTH /\
-    fst (fst (sframe s c w ctr)) = SHalt /\
-    exists ret st lg, In (FOk ret, st, lg) (mframe s c (mstate_of w ctr)) /\ world_of st <> w.
-Proof. exact static_value_call_refuted. Qed.
-Print Assumptions C09_static_value_call_refuted.
-
-(* CALLCODE with value > balance: a succeeding path is reported next to the failing one *)
-Theorem C09_callcode_funds_refuted :
-  exists s c w ctr, supported s = true /\ c_depth c <= MAX_DEPTH /\
-    ~ Forall (fun m => R m (sframe s c w ctr)) (mframe s c (mstate_of w ctr)).
-Proof. exact callcode_funds_refuted. Qed.
-Print Assumptions C09_callcode_funds_refuted.
-
-(* RETURNDATACOPY with size 0 and offset > RETURNDATASIZE does not halt *)
-Theorem C09_retcopy_zero_refuted :
-  exists s c w ctr, supported s = true /\ c_depth c <= MAX_DEPTH /\
-    ~ Forall (fun m => R m (sframe s c w ctr)) (mframe s c (mstate_of w ctr)).
-Proof. exact retcopy_zero_refuted. Qed.
-Print Assumptions C09_retcopy_zero_refuted.
 
 (* a call of an address without account at the depth limit succeeds (and transfers) *)
 Theorem C09_depth_nocode_refuted :
